@@ -72,6 +72,22 @@ def run(report, p):
     r1.check(ok_ret, fr, inner[0] if inner else fr.node, "on a match routing does not return (child history, path relative to that child's own root)", construct="routing match result")
     ok_out = all(isinstance(n.value, ast.Tuple) and norm(n.value) == f"({fr.params[0]}, {fr.params[1]})" for n in outer) and len(outer) >= 1
     r1.check(ok_out, fr, outer[0] if outer else fr.node, "without a matching child routing does not return (this history, the unchanged path)", construct="routing fall-through")
+    # when routing stays in this history: only because there is no child at all, or because the walk-up found no mapped folder.
+    # The decision depends on WHERE the path lies, never on what has been recorded for it.
+    from .common import atomic_deps
+
+    for n in outer:
+        at = set()
+        for t, l in g.control_deps(g.node_for(n)):
+            if t.kind == "test":
+                at |= set(atomic_deps(t.ast, l))
+        extra = []
+        for a, l in sorted(at):
+            a2 = a.replace(" ", "")
+            structural = a2.startswith(("len(self.child_histories)", "self.child_histories", "notself.child_histories")) or (whiles and norm(whiles[0].test).replace(" ", "") == a2) or ("inself.child_history_mappings" in a2) or a2.startswith("len(dir_path)") or a2 == "dir_path"
+            if not structural:
+                extra.append((a, l))
+        r1.check(not extra, fr, n, f"routing returns 'this history' under {extra}: which history owns a path must depend only on the path and the nested roots, not on recorded state", construct=f"routing fall-through under {extra}")
     # no string-prefix decisions in discovery / mapping either
     for name in ("_find_and_load_child_histories", "_update_child_history_mapping"):
         f = p.funcs.get(f"{HIST}.{name}")
@@ -277,6 +293,7 @@ def run(report, p):
 
     # ---- rules shared with other properties (same mechanism, same rule, reported under every property it can break)
     include_rules(report, p, 'c05', ['R5.7'], 'every nested ascmhl folder must be discovered as a child history')
+    include_rules(report, p, 'c03', ['R3.10'], 'the commit loop and the loader test hash lists for presence')
     include_rules(report, p, 'c02', ['R2.3'], 'records are keyed by the routed history-relative path')
     report.not_decided += ["exactly-one-history-per-file on concrete layouts", "equality of reference digests with the referenced bytes at run time"]
 
